@@ -46,6 +46,9 @@ CLAIMS = {
  "C12": ("exhaustive evaluation of BlocksBefore / BlocksAfter / the query block filter over the order type of a block's timestamp against the bound; value-origin rule on the blocks handed to the subtraction; field coverage of the per-block statistics and of Add/Sub",
          "Decides that the listing subtracts exactly the blocks the query skips and that the subtracted statistics are complete. The sums as numbers and day-boundary arithmetic are NOT decided.",
          "go/types; block lists are sorted by timestamp (writer appends; C03 rejects non-monotone histories)"),
+ "C08": ("interpretation of the scan-restriction function over its finite enum domain (all child restrictions x node kinds; leaves over all comparators), symbolic linear evaluation of the column index expressions, constant flag tables, per-iteration path rule for row/total accounting, positional agreement of counter arguments",
+         "Exhaustive for the pruning clause over the value domain {none, v4, v6}; structural for key/condition population, flag tables, accounting and counter positions. Equality with an independent aggregation over all databases and conditions is NOT decided.",
+         "go/types + go/cfg; column layout 'IPv4 entries first' (dbData)"),
  "C23": ("per-path packed-record layout extraction (index/slice/unsafe-cast/copy at cursor+const) with writer/reader table comparison",
          "Decides that every field LocalBuffer.Add stores lies inside the cursor stride, fields are disjoint, and Add/Next agree on offset, width, stride and version flag per role; refusal stores nothing. Exact for the layout clause (the one the defect F11 lived in); FIFO behaviour over operation sequences is not decided.",
          "go/types + go/cfg; gc/amd64 sizes for unsafe casts"),
